@@ -19,7 +19,7 @@ RULE = ("exhaustive: every reply of length <= 4 (thorough: <= 5) over {0,1,2,9,-
         "all ordered pairs of a 40-path set for the scope test; seeded random entry lists for the three sort modes; "
         "distinct by input; every case reaches the parser / scope test / sorter; world level: restore worlds incl. a well-filled "
         "trash with ranges across the two-digit boundary; prompt race: another command removes a different entry while "
-        "trash-restore waits at its prompt (one preemption at each step) - the reply means the list as printed")
+        "trash-restore waits at its prompt (one preemption at each step) - the reply means the list as printed; nested pairs (a file trashed from inside a directory, then the directory) with non-ascending replies: the entries are restored in the order the reply names them")
 ALPHA = "0129-, +a_"
 INT_RE = re.compile(r"^[ \t\n\r\x0b\x0c\x1c-\x1f]*\+?[0-9]+(_[0-9]+)*[ \t\n\r\x0b\x0c\x1c-\x1f]*$")
 
